@@ -65,6 +65,38 @@ func shadow(g gameT) *board.Board {
 	return b
 }
 
+// caseVariant flips the colour of one knight, bishop or queen (or rook, if nobody may castle) of a FEN
+// without an en passant square; "" if there is none.
+func caseVariant(r *rand.Rand, f string) string {
+	parts := strings.Split(f, " ")
+	if len(parts) != 6 || parts[3] != "-" {
+		return ""
+	}
+	kinds := "NBQnbq"
+	if parts[2] == "-" {
+		kinds += "Rr"
+	}
+	var idx []int
+	for i, c := range parts[0] {
+		if strings.ContainsRune(kinds, c) {
+			idx = append(idx, i)
+		}
+	}
+	if len(idx) == 0 {
+		return ""
+	}
+	// deterministic in the FEN, so that the two calls of one case agree
+	i := idx[len(f)%len(idx)]
+	b := []byte(parts[0])
+	if b[i] >= 'a' {
+		b[i] -= 32
+	} else {
+		b[i] += 32
+	}
+	parts[0] = string(b)
+	return strings.Join(parts, " ")
+}
+
 func extend(r *rand.Rand, g gameT, k int) gameT {
 	b := shadow(g)
 	ret := gameT{start: g.start, moves: append([]string{}, g.moves...)}
@@ -133,7 +165,7 @@ func ucipos(args []string) {
 	w := out.Create(*path)
 	ctx := context.Background()
 	all := corpus.All()
-	tmo := 5 * time.Second
+	tmo := 60 * time.Second // generous: a loaded machine must not look like a hung driver
 
 	randomStart := func() string {
 		switch r.Intn(3) {
@@ -172,6 +204,11 @@ func ucipos(args []string) {
 				shape = "fen-of-current"
 				b := shadow(*cur)
 				g = extend(r, gameT{start: "fen " + fen.Encode(b.Position(), b.Turn(), b.NoProgress(), b.FullMoves())}, r.Intn(3)*r.Intn(4))
+			case x < 32 && caseVariant(r, cur.fenOf()) != "":
+				// the same FEN with the colour of one officer flipped (letter case): a different game that
+				// differs from the previous command line in case only
+				shape = "case-variant"
+				g = gameT{start: "fen " + caseVariant(r, cur.fenOf())}
 			case x < 45:
 				shape = "extend"
 				g = extend(r, *cur, 1+r.Intn(4))
